@@ -1,11 +1,12 @@
 (* C15 — correspondence / property evaluation on what was observed on the
    implementation (harness/cmd/c15).  Executable only. *)
 From Coq Require Import List ZArith Bool.
-From GZ Require Export Lib.CheckLib C15.Model.
+From GZ Require Export Lib.CheckLib C15.Model C15.Cluster.
+From GZgen Require Import C15Consts.
 Import ListNotations.
 Open Scope Z_scope.
 
-Record case := mkCase
+Record rcase := mkCase
   { cR : Z;                       (* h.replicas *)
     cvh : list (Z * list Z);      (* repr id |-> hashFunc(repr+itoa(i)), i = 0 .. R-1 *)
     cops : list op;
@@ -42,17 +43,17 @@ Fixpoint model_gets (t : list (Z * list Z)) (R : Z) (s : state) (ops : list op) 
   | o :: ops' => model_gets t R (step (vh_of t) R s o) ops' ps
   end.
 
-Definition model_obs (c : case) : list (list Z) :=
+Definition model_obs_r (c : rcase) : list (list Z) :=
   model_gets (cvh c) (cR c) init (cops c) (cprobes c).
 
 (* the model reproduces exactly what the implementation answered *)
-Definition final_state (c : case) : state := fold_left (step (vh_of (cvh c)) (cR c)) (cops c) init.
+Definition final_state (c : rcase) : state := fold_left (step (vh_of (cvh c)) (cR c)) (cops c) init.
 
-Definition agrees (c : case) : bool :=
+Definition agrees_r (c : rcase) : bool :=
   if cfinal c then
     let g := gets_of (cvh c) (final_state c) (cprobes c) in
     negb (match cgets c with [] => true | _ => false end) && forallb (zs_eqb g) (cgets c)
-  else list_eqb zs_eqb (model_obs c) (cgets c).
+  else list_eqb zs_eqb (model_obs_r c) (cgets c).
 
 (* ---- the property on the observed answers ------------------------------------
    Stated against the specification "node |-> (replica count, value)", not against
@@ -198,7 +199,7 @@ Fixpoint hist_ok (t : list (Z * list Z)) (R : Z) (cf ord : bool) (ps : list (Z *
   end.
 
 (* clauses that hold for every hash function *)
-Definition core_ok (c : case) : bool :=
+Definition core_ok (c : rcase) : bool :=
   match cgets c with
   | g0 :: obs => step_ok (cvh c) false (cprobes c) [] g0 &&
                  hist_ok (cvh c) (cR c) false false (cprobes c) [] g0 [] (cops c) obs
@@ -207,9 +208,9 @@ Definition core_ok (c : case) : bool :=
 
 (* [cf] = the hypothesis of the collision-free theorems holds for this case:
    ProofsB.collision_free_spec turns it into [collision_free_on (vh_of (cvh c)) (cR c) universe] *)
-Definition final_map (c : case) : amap := fold_left (a_step (cR c)) (cops c) [].
+Definition final_map (c : rcase) : amap := fold_left (a_step (cR c)) (cops c) [].
 
-Definition prop_ok (c : case) : bool :=
+Definition prop_ok_r (c : rcase) : bool :=
   let cf := collision_free (cvh c) && table_ok (cvh c) (cR c) in
   if cfinal c then
     (* a key is served — read, written, deleted — by the node the ring designates *)
@@ -221,3 +222,119 @@ Definition prop_ok (c : case) : bool :=
                  hist_ok (cvh c) (cR c) cf (cf || cstrict c) (cprobes c) [] g0 [([], g0)] (cops c) obs
   | [] => false
   end.
+
+(* ==== users of the ring: cluster scripts (harness/cmd/c15/script.go) =========================
+   Several clusters (cache.New / kv.NewStore) over the same servers, driven through their public
+   API; observed: per step the set of touches (key, server) logged by the servers, and at [CSnap]
+   steps the (key, server) pairs where a key is missing.  Pairs are encoded key * 64 + server. *)
+Record ucase := mkUser
+  { uR : Z;
+    uvh : list (Z * list Z);            (* server repr id |-> hashes of its virtual-node strings *)
+    uinsts : list (bool * list op);     (* per instance: is it a cache cluster; the constructor's ring operations *)
+    ukeys : list (Z * (Z * Z));         (* per key: the instance it belongs to, its two hashes *)
+    uops : list cop;
+    utouch : list (list Z);             (* per step: observed touches, sorted, without duplicates *)
+    usnaps : list (list Z) }.           (* per CSnap step: observed missing pairs, sorted *)
+
+Definition enc (k s : Z) : Z := k * 64 + s.
+
+Fixpoint dedup_sorted (l : list Z) : list Z :=
+  match l with
+  | x :: ((y :: _) as l') => if x =? y then dedup_sorted l' else x :: dedup_sorted l'
+  | _ => l
+  end.
+Definition canon_zs (l : list Z) : list Z := dedup_sorted (sort_z l).
+
+Definition u_insts (u : ucase) : list inst :=
+  map (fun ic => mkInst (fst ic) (fold_left (step (vh_of (uvh u)) (uR u)) (snd ic) init)) (uinsts u).
+Definition u_keys (u : ucase) : list (Z * Z) := map snd (ukeys u).
+
+Definition u_run (u : ucase) : list (cstate * list touch) :=
+  crun (u_insts u) (u_keys u) cleanDelays cinit (uops u).
+
+Definition enc_touches (ts : list touch) : list Z :=
+  canon_zs (map (fun t => enc (snd (fst t)) (snd t)) ts).
+
+Fixpoint model_snaps (ops : list cop) (rs : list (cstate * list touch)) : list (option (list Z)) :=
+  match ops, rs with
+  | CSnap :: ops', r :: rs' =>
+    (if cclean (fst r) then Some (canon_zs (map (fun g => enc (fst g) (snd g)) (cgone (fst r)))) else None)
+    :: model_snaps ops' rs'
+  | _ :: ops', _ :: rs' => model_snaps ops' rs'
+  | _, _ => []
+  end.
+
+Definition model_obs_u (u : ucase) : list (list Z) :=
+  map (fun r => enc_touches (snd r)) (u_run u) ++
+  map (fun o => match o with Some g => g | None => [-1] end) (model_snaps (uops u) (u_run u)).
+
+Definition agrees_u (u : ucase) : bool :=
+  list_eqb zs_eqb (map (fun r => enc_touches (snd r)) (u_run u)) (utouch u) &&
+  forall2b (fun m o => match m with Some g => zs_eqb g o | None => true end)
+           (model_snaps (uops u) (u_run u)) (usnaps u).
+
+(* ---- the property on the observed touches: against the node maps, not against the ring ---- *)
+Definition u_maps (u : ucase) : list amap :=
+  map (fun ic => fold_left (a_step (uR u)) (snd ic) []) (uinsts u).
+
+Definition zmem (x : Z) (l : list Z) : bool := existsb (Z.eqb x) l.
+
+(* a command naming key k arrived at server s: k is a key of the case, belonging to instance [io]
+   if given and among [allowed] if given, and s is the node that the node map of k's instance
+   designates for k (an owner of the successor slot; on a collision-free universe THE owner) *)
+Definition touch_ok (u : ucase) (cf : bool) (io : option Z) (allowed : option (list Z)) (t : Z) : bool :=
+  let k := t / 64 in
+  let s := t mod 64 in
+  (0 <=? k) &&
+  match nth_error (ukeys u) (Z.to_nat k) with
+  | Some (ik, (hp, _)) =>
+    (match io with Some i => ik =? i | None => true end) &&
+    (match allowed with Some ks => zmem k ks | None => true end) &&
+    (0 <=? ik) &&
+    match nth_error (u_maps u) (Z.to_nat ik) with
+    | Some m =>
+      let vs := vnodes (uvh u) m in
+      member_only m s && owner_ok vs hp s && (if cf then s =? spec_get_vs vs hp else true)
+    | None => false
+    end
+  | None => false
+  end.
+
+Definition covered (ts : list Z) (k : Z) : bool := existsb (fun t => t / 64 =? k) ts.
+
+Definition ustep_ok (u : ucase) (cf : bool) (o : cop) (ts : list Z) : bool :=
+  match o with
+  | CSingle i k => forallb (touch_ok u cf (Some i) (Some [k])) ts && covered ts k
+  | CDel i ks => forallb (touch_ok u cf (Some i) (Some ks)) ts && forallb (covered ts) ks
+  | CTick => forallb (touch_ok u cf None None) ts
+  | _ => match ts with [] => true | _ => false end
+  end.
+
+(* snapshots are judged while only Del / fault / tick steps happened since the last populate *)
+Fixpoint usnaps_ok (u : ucase) (cf : bool) (clean : bool) (ops : list cop) (snaps : list (list Z)) : bool :=
+  match ops with
+  | [] => match snaps with [] => true | _ => false end
+  | CSnap :: ops' =>
+    match snaps with
+    | g :: snaps' => (if clean then forallb (touch_ok u cf None None) g else true) &&
+                     usnaps_ok u cf clean ops' snaps'
+    | [] => false
+    end
+  | CPopulate :: ops' => usnaps_ok u cf true ops' snaps
+  | CSingle _ _ :: ops' => usnaps_ok u cf false ops' snaps
+  | _ :: ops' => usnaps_ok u cf clean ops' snaps
+  end.
+
+Definition prop_ok_u (u : ucase) : bool :=
+  let cf := collision_free (uvh u) && table_ok (uvh u) (uR u) in
+  forall2b (ustep_ok u cf) (uops u) (utouch u) && usnaps_ok u cf false (uops u) (usnaps u).
+
+(* ==== the case type evaluated by the runner ==================================================== *)
+Inductive case := RingCase (c : rcase) | UserCase (u : ucase).
+
+Definition agrees (c : case) : bool :=
+  match c with RingCase c => agrees_r c | UserCase u => agrees_u u end.
+Definition prop_ok (c : case) : bool :=
+  match c with RingCase c => prop_ok_r c | UserCase u => prop_ok_u u end.
+Definition model_obs (c : case) : list (list Z) :=
+  match c with RingCase c => model_obs_r c | UserCase u => model_obs_u u end.
